@@ -589,6 +589,10 @@ class SI:
         return SB(s.t >= _li(o))
     __hash__ = None
 
+    def __bool__(s):
+        # truth value of an integer is `!= 0` (a symbolic branch), not the default "objects are true"
+        return bool(SB(s.t != 0))
+
     def __int__(s):
         k = Engine.cur.unique_int(s.t)
         if k is None:
